@@ -24,6 +24,10 @@ mod performance;
 mod score_state;
 mod strains;
 
+#[cfg(rosu_pp_verif)]
+#[doc(hidden)]
+pub mod verif;
+
 /// Marker type for [`GameMode::Taiko`].
 ///
 /// [`GameMode::Taiko`]: rosu_map::section::general::GameMode::Taiko
